@@ -7,7 +7,7 @@ import QtVerif.Model.Faults
   expr <id> <c> <d1,d2,…|->                    port <id> has the expression  c + $d1 + $d2 + …
   rd|hb|wr <port> <call index> <outcome>       fault schedule (default outcome: ok)
   hd <handler> <port> <outcome>                handler <handler> on value-change events of <port>
-  pass loop|other <now> | set <p> <v> | api <p> <v> <k> | eval <p> | write <p> | settle
+  pass loop|other <now> | set <p> <v> | api <p> <v> <k> | eval <p> | write <p> | create <p> | remove <p> | force | settle
                                                (eval replies x:<p>:idle|err|<value>:<write submitted 0/1>)
                                                one action (settle = the eval tasks that can run, run);
                                                reply: the new observations, oldest first
@@ -158,6 +158,15 @@ def dstep (d : DState) : List String → DState × String
     match p.toNat? with
     | some p => act d (.write p)
     | none => (d, "bad-op")
+  | ["create", p] =>
+    match p.toNat? with
+    | some p => act d (.create p)
+    | none => (d, "bad-op")
+  | ["remove", p] =>
+    match p.toNat? with
+    | some p => act d (.remove p)
+    | none => (d, "bad-op")
+  | ["force"] => act d .forceEval
   | ["settle"] =>
     let fuel := (d.st.ports.map (fun q => q.evalQ.length)).foldl (· + ·) 1
     ({ d with st := { d.st with ports := settle (mkEnv d) fuel d.st.ports } }, "ok")
